@@ -3,11 +3,16 @@
    (Subject::new), its scan (find_special_char) and the arm selection of parse_inline, all regenerated from
    /repo/src/parser/inlines.rs on every run (translator item `special`), together with the audit of every
    place that reads an extension / parse option.
-   NOT proved: inertness of the block openers and of the whole parser (there is no Coq model of the block
-   parser, nor of the handle_* functions): C13_full_statement stays a Definition and is what the metamorphic
-   search of tools/checks/c13.py evaluates on the compiled library. *)
+   Part 2 (below, `PARSER MODEL`) states C13 for the two phases of the parser model: the inline phase
+   (Model/Inlines.v: parse_inline, inline_loop, process_emphasis, parse_inlines; Proofs/InertInlines.v,
+   Proofs/InertFeatures.v) and the block phase (Model/Blocks.v: parse_blocks; Proofs/InertRegex.v,
+   Proofs/InertBlocks.v).  Both models are tied to the compiled parser (tools/checks/inlines_tie.py, blocks_tie.py).
+   NOT proved: the composition blocks -> inlines -> postprocess -> HTML (C13_full_statement stays a Definition and is
+   what the metamorphic search of tools/checks/c13.py evaluates on the compiled library); see the gap comments. *)
 From Coq Require Import List NArith Bool Strings.String.
-From V Require Import Base.Bytes Gen.Special Gen.AuditOptions Model.Special Spec.Triggers Proofs.SpecialProofs.
+From V Require Import Model.Ast Model.Inlines Model.Blocks Model.Feed Proofs.InlinesProofs Proofs.InertInlines Proofs.InertFeatures
+     Proofs.InertRegex Proofs.InertBlocks.
+From V Require Import Base.Bytes Base.Res Gen.Special Gen.AuditOptions Model.Special Spec.Triggers Proofs.SpecialProofs.
 Import ListNotations.
 Local Open Scope string_scope.
 Local Open Scope list_scope.
@@ -127,3 +132,202 @@ Example C13_nonvacuous_tables :
   select_arm opts_none false x7e = Some 18 /\
   free_of Footnotes (B "[\^a]") = true /\ free_of Footnotes (B "[^a]") = false.
 Proof. vm_compute. repeat split; reflexivity. Qed.
+
+
+(* ====================================================================== PARSER MODEL, inline phase
+   T = a set of trigger bytes; `tfree T inp`: the block content has none of them; `iagree T o1 o2 inp`: the option
+   records agree on every field except those all of whose reads are guarded by a byte of T (Proofs/InertInlines.v),
+   and the special-character tables agree outside T (discharged per feature from C13_table_inert /
+   C13_find_special_inert above).  `Inv T s`: the invariant of the dispatcher loop (no open bracket when the left
+   bracket is in T; no stacked delimiter whose byte is in T or whose Text node begins with a byte of T). *)
+
+(* (a)+(b) one call of parse_inline: same arm, same result, whatever the state reached *)
+Theorem C13_inline_step_generic : forall memo T o1 o2 u inp lo sl refmap maxref s,
+  tfree T inp -> iagree T o1 o2 inp -> Inv T s ->
+  parse_inline memo o1 u inp lo sl refmap maxref s = parse_inline memo o2 u inp lo sl refmap maxref s.
+Proof. exact step_eq_rec. Qed.
+Print Assumptions C13_inline_step_generic.
+
+(* the invariant holds initially and is kept by every step, for every option record *)
+Theorem C13_inline_invariant_init : forall T sl r0, Inv T (init_st sl r0).
+Proof. exact Inv_init. Qed.
+Print Assumptions C13_inline_invariant_init.
+
+Theorem C13_inline_invariant_step : forall memo T o u inp lo sl refmap maxref s s',
+  tfree T inp -> (forall b, is_ascii b = false -> T b = false) -> Inv T s ->
+  parse_inline memo o u inp lo sl refmap maxref s = Ok (Some s') -> Inv T s'.
+Proof. exact step_inv_rec. Qed.
+Print Assumptions C13_inline_invariant_step.
+
+(* the sequence of dispatcher calls *)
+Theorem C13_inline_loop_generic : forall memo T o1 o2 u inp lo sl refmap maxref fuel s,
+  tfree T inp -> iagree T o1 o2 inp -> Inv T s ->
+  inline_loop memo o1 u inp lo sl refmap maxref fuel s = inline_loop memo o2 u inp lo sl refmap maxref fuel s.
+Proof. exact loop_eq_rec. Qed.
+Print Assumptions C13_inline_loop_generic.
+
+(* process_emphasis: the option reads (is_emph_char, insert_emph, emph_value) are reachable only from a delimiter
+   whose byte is a trigger *)
+Theorem C13_process_emphasis_inert : forall T o1 o2 inp s n0 items ds bottom,
+  iagree T o1 o2 inp -> (forall d, In d ds -> dgood T items d) ->
+  process_emphasis o1 inp s n0 items ds bottom = process_emphasis o2 inp s n0 items ds bottom.
+Proof. exact process_emphasis_inert_rec. Qed.
+Print Assumptions C13_process_emphasis_inert.
+
+(* (c) the whole block *)
+Theorem C13_inline_inert_generic : forall memo T o1 o2 u inp lo sl refmap maxref r0,
+  tfree T inp -> iagree T o1 o2 inp ->
+  parse_inlines memo o1 u inp lo sl refmap maxref r0 = parse_inlines memo o2 u inp lo sl refmap maxref r0.
+Proof. exact parse_inlines_inert_rec. Qed.
+Print Assumptions C13_inline_inert_generic.
+
+(* ... per feature of Spec/Triggers.v (io_with F v o sets the field of the inline option record that F switches;
+   for the features of the block phase and of the renderer the record is unchanged), every other option arbitrary *)
+Theorem C13_inline_step_inert : forall F memo o u inp lo sl refmap maxref s,
+  free_of_heads F inp = true -> Inv (T_of F) s ->
+  parse_inline memo (io_with F true o) u inp lo sl refmap maxref s
+  = parse_inline memo (io_with F false o) u inp lo sl refmap maxref s.
+Proof. exact inline_step_inert. Qed.
+Print Assumptions C13_inline_step_inert.
+
+Theorem C13_inline_inert : forall F memo o u inp lo sl refmap maxref r0,
+  free_of_heads F inp = true ->
+  parse_inlines memo (io_with F true o) u inp lo sl refmap maxref r0
+  = parse_inlines memo (io_with F false o) u inp lo sl refmap maxref r0.
+Proof. exact inline_inert. Qed.
+Print Assumptions C13_inline_inert.
+
+(* GAP 1: the statement under the specification's free_of (trigger STRINGS) is false for the parse itself: a lone
+   hyphen is a text node of its own under smart punctuation.  The HTML is the same (adjacent Text nodes are merged
+   by postprocess_text_nodes); a statement modulo merging is not proved. *)
+Definition C13_inline_full_statement : Prop := inline_inert_full_statement.
+Theorem C13_inline_free_of_refuted : ~ C13_inline_full_statement.
+Proof. exact inline_inert_free_refuted. Qed.
+Print Assumptions C13_inline_free_of_refuted.
+
+(* GAP 2 (finding C13-f): postprocess_text_nodes (task list marker, e-mail autolinks) reads the DECODED text of the
+   merged Text nodes: a character reference for the at sign / the left bracket is enough, so inertness of the
+   post-processing hooks is FALSE for content free of the trigger bytes.  Witnesses replayed on the compiled
+   library by tools/checks/c13.py (corpus). *)
+Theorem C13_postprocess_autolink_refuted :
+  free_of_heads Autolink at_witness = true /\
+  is_ok (inline_post (io_with Autolink false io_default) None at_witness) = true /\
+  inline_post (io_with Autolink true io_default) None at_witness
+  <> inline_post (io_with Autolink false io_default) None at_witness.
+Proof. exact postprocess_autolink_refuted. Qed.
+Print Assumptions C13_postprocess_autolink_refuted.
+
+Theorem C13_postprocess_tasklist_refuted :
+  free_of_heads Tasklist lbracket_witness = true /\
+  is_ok (inline_post (io_with Tasklist false io_default) (Some 1%N) lbracket_witness) = true /\
+  inline_post (io_with Tasklist true io_default) (Some 1%N) lbracket_witness
+  <> inline_post (io_with Tasklist false io_default) (Some 1%N) lbracket_witness.
+Proof. exact postprocess_tasklist_refuted. Qed.
+Print Assumptions C13_postprocess_tasklist_refuted.
+
+(* non-vacuity: with the trigger present the switch changes the parse; without it the theorem applies *)
+Example C13_inline_nonvacuous :
+  let run F v d := parse_inlines true (io_with F v io_default) oracle_ascii d [0%N] 1%N [] 100000%N 0%N in
+  run Strikethrough true (B "~~a~~") <> run Strikethrough false (B "~~a~~") /\
+  free_of_heads Strikethrough (B "*a* b") = true /\
+  run Strikethrough true (B "*a* b") = run Strikethrough false (B "*a* b") /\
+  run Footnotes true (B "x[^a]") <> run Footnotes false (B "x[^a]") /\
+  run Smart true (B "a--b") <> run Smart false (B "a--b").
+Proof. exact inline_inert_nonvacuous. Qed.
+
+(* ====================================================================== PARSER MODEL, block phase
+   `okle r1 r2`: whenever r1 is Ok x, r2 is Ok x.  Statements: whenever the block phase WITH the feature succeeds, the
+   block phase WITHOUT it gives exactly the same tree and reference map.
+   GAP 3: full equality of results (also when the run with the feature panics) is not proved: an enabled opener
+   evaluates line[first_nonspace] under its own panic-site string, so equality needs the cursor invariant
+   first_nonspace < |line| for every reachable state (Proofs/BlocksCursor.v has it only locally). *)
+Definition C13_blocks_full_statement : Prop :=
+  forall (set : bool -> bopts -> bopts) (t : byte) o x, nob t x -> parse_blocks (set true o) x = parse_blocks (set false o) x.
+
+(* scanners: a rule set all of whose rules need a byte of P answers its default on input without such a byte *)
+Theorem C13_regex_needs : forall P r s, needs P r = true -> Regex.matches r s -> exists b, In b s /\ P b = true.
+Proof. exact needs_sound. Qed.
+Print Assumptions C13_regex_needs.
+
+(* four openers at once, any combination switched (f d m a = footnotes, description_lists, multiline_block_quotes,
+   alerts), hypothesis on the LINES handed to process_line (front matter may contain anything) *)
+Theorem C13_blocks_inert4_lines : forall tb f1 d1 m1 a1 f2 d2 m2 a2 o x,
+  (forall l, block_lines o x l -> line_ok f1 d1 m1 a1 f2 d2 m2 a2 (norm_line l)) ->
+  okle (parse_blocks (bo4 tb f1 d1 m1 a1 o) x) (parse_blocks (bo4 tb f2 d2 m2 a2 o) x).
+Proof. exact blocks_inert4_lines. Qed.
+Print Assumptions C13_blocks_inert4_lines.
+
+Theorem C13_blocks_footnotes_inert : forall o x, nob x5b x ->
+  okle (parse_blocks (bo_with_footnotes true o) x) (parse_blocks (bo_with_footnotes false o) x).
+Proof. exact footnotes_blocks_inert. Qed.
+Print Assumptions C13_blocks_footnotes_inert.
+
+Theorem C13_blocks_alerts_inert : forall o x, nob x5b x ->
+  okle (parse_blocks (bo_with_alerts true o) x) (parse_blocks (bo_with_alerts false o) x).
+Proof. exact alerts_blocks_inert. Qed.
+Print Assumptions C13_blocks_alerts_inert.
+
+Theorem C13_blocks_alerts_inert_gt : forall o x, nob x3e x ->
+  okle (parse_blocks (bo_with_alerts true o) x) (parse_blocks (bo_with_alerts false o) x).
+Proof. exact alerts_blocks_inert_gt. Qed.
+Print Assumptions C13_blocks_alerts_inert_gt.
+
+Theorem C13_blocks_multiline_block_quotes_inert : forall o x, nob x3e x ->
+  okle (parse_blocks (bo_with_multiline_block_quotes true o) x) (parse_blocks (bo_with_multiline_block_quotes false o) x).
+Proof. exact multiline_block_quotes_blocks_inert. Qed.
+Print Assumptions C13_blocks_multiline_block_quotes_inert.
+
+(* description lists: the documented trigger is the colon; the scanner also accepts a tilde (known class C13-b) *)
+Theorem C13_blocks_description_lists_inert : forall o x, nob x3a x -> nob x7e x ->
+  okle (parse_blocks (bo_with_description_lists true o) x) (parse_blocks (bo_with_description_lists false o) x).
+Proof. exact description_lists_blocks_inert. Qed.
+Print Assumptions C13_blocks_description_lists_inert.
+
+Theorem C13_blocks_description_lists_colon_refuted :
+  nob x3a doc_tilde /\
+  is_ok (parse_blocks (bo_with_description_lists true o_plain) doc_tilde) = true /\
+  is_ok (parse_blocks (bo_with_description_lists false o_plain) doc_tilde) = true /\
+  ~ okle (parse_blocks (bo_with_description_lists true o_plain) doc_tilde)
+         (parse_blocks (bo_with_description_lists false o_plain) doc_tilde).
+Proof. exact description_lists_colon_only_refuted. Qed.
+Print Assumptions C13_blocks_description_lists_colon_refuted.
+
+(* tables: no table can do without a hyphen (delimiter row); invariant: no Table node in the tree *)
+Theorem C13_blocks_table_inert : forall o x, nob x2d x ->
+  okle (parse_blocks (bo_with_table true o) x) (parse_blocks (bo_with_table false o) x).
+Proof. exact table_blocks_inert. Qed.
+Print Assumptions C13_blocks_table_inert.
+
+(* greentext: its read in add_text_to_container needs no right angle bracket at all (known class C13-a, DESIGN F20) *)
+Theorem C13_blocks_greentext_refuted :
+  nob x3e doc_fn_lazy /\
+  is_ok (parse_blocks (bo_with_greentext true o_footnotes) doc_fn_lazy) = true /\
+  is_ok (parse_blocks (bo_with_greentext false o_footnotes) doc_fn_lazy) = true /\
+  ~ okle (parse_blocks (bo_with_greentext true o_footnotes) doc_fn_lazy)
+         (parse_blocks (bo_with_greentext false o_footnotes) doc_fn_lazy).
+Proof. exact greentext_blocks_refuted. Qed.
+Print Assumptions C13_blocks_greentext_refuted.
+
+(* ... while its two guarded read sites are inert (equalities) *)
+Theorem C13_blocks_greentext_prefix_inert : forall v v' o st line, nob x3e line ->
+  parse_block_quote_prefix (bo_with_greentext v o) st line = parse_block_quote_prefix (bo_with_greentext v' o) st line.
+Proof. exact parse_block_quote_prefix_greentext_inert. Qed.
+Print Assumptions C13_blocks_greentext_prefix_inert.
+
+Theorem C13_blocks_greentext_opener_inert : forall v v' o st c line ind, nob x3e line ->
+  handle_blockquote (bo_with_greentext v o) st c line ind = handle_blockquote (bo_with_greentext v' o) st c line ind.
+Proof. exact handle_blockquote_greentext_inert. Qed.
+Print Assumptions C13_blocks_greentext_opener_inert.
+
+(* GAP 4: bo_spoiler (read by the table row scanner) and bo_front_matter_delimiter are not covered by a block-phase
+   theorem; both stay with the metamorphic search. *)
+
+(* non-vacuity: a trigger-free document on which the block phase succeeds and all four switches are inert; with the
+   trigger the switch matters *)
+Example C13_blocks_nonvacuous :
+  (is_ok (parse_blocks (bo4 false true true true true o_plain) [x61; x0a; x0a; x2d; x20; x62; x0a]) = true /\
+   parse_blocks (bo4 false true true true true o_plain) [x61; x0a; x0a; x2d; x20; x62; x0a]
+   = parse_blocks (bo4 false false false false false o_plain) [x61; x0a; x0a; x2d; x20; x62; x0a]) /\
+  block_kinds (bo_with_footnotes true o_plain) [x5b; x5e; x61; x5d; x3a; x20; x62]
+  <> block_kinds (bo_with_footnotes false o_plain) [x5b; x5e; x61; x5d; x3a; x20; x62].
+Proof. exact (conj inert_applies footnotes_matter). Qed.
